@@ -63,7 +63,8 @@ EXPECT_PROBES = ["side_ctl", "side_sw", "fault_len", "fault_type",
                  "fault_version", "fault_word", "fault_trunc", "fault_flip",
                  "fault_random", "victim_closed", "victim_survived",
                  "len_zero", "len_short", "len_long", "victim_slow_reader",
-                 "victim_had_unsent_replies", "late_sentinels_sent"]
+                 "victim_had_unsent_replies", "late_sentinels_sent",
+                 "victim_before_hello"]
 
 PORT = G.PORT
 
@@ -80,6 +81,16 @@ def gen_plan(seed, tier):
       m = mk(r, 0x200 + i)
     msgs.append(m)
   k = r.randrange(n)
+  if r.chance(0.06):
+    # a message near the 16-bit length limit, completely delivered: whatever
+    # is reported about it has to fit a message of its own
+    T = r.pick([65535, 65534, 65524, 65523, 65500, 40000, 32768])
+    if side == "sw" and r.chance(0.4):
+      # well-formed, but refused: names a buffer that does not exist
+      msgs[k] = W.enc_packet_out(0x200 + k, 0x7777, W.OFPP_NONE,
+                                 [("output", 1, 0)], r.randbytes(T - 24))
+    else:
+      msgs[k] = W.enc_echo_request(0x200 + k, r.randbytes(T - 8))
   L = len(msgs[k])
   kind = r.wpick([(6, "len"), (4, "type"), (2, "version"), (6, "word"),
                   (4, "trunc"), (3, "flip"), (2, "random")])
@@ -115,7 +126,12 @@ def gen_plan(seed, tier):
          # stream arrives (None = reads at once, else bytes accepted early)
          "slow_reader": r.pick([None, None, 0, 16, 100]),
          # the sentinel requests follow in a later write of the peer
-         "late_sentinels": r.chance(0.5)}
+         "late_sentinels": r.chance(0.5),
+         # the damaged stream is the first thing the victim ever receives
+         # (no hello from the peer before it)
+         "before_hello": r.chance(0.2)}
+  if max(len(m) for m in msgs) > 20000 and cfg["recv_mode"] == "dribble":
+    cfg["recv_mode"] = "choose"
   return {"prop": PROP, "seed": seed, "cfg": cfg,
           "steps": [{"m": m.hex()} for m in msgs], "fault": fault}
 
@@ -133,6 +149,8 @@ def minimise_hint(plan):
     out.append(dict(plan, cfg=dict(plan["cfg"], slow_reader=None)))
   if plan["cfg"].get("late_sentinels"):
     out.append(dict(plan, cfg=dict(plan["cfg"], late_sentinels=False)))
+  if plan["cfg"].get("before_hello"):
+    out.append(dict(plan, cfg=dict(plan["cfg"], before_hello=False)))
   return out
 
 
@@ -364,10 +382,16 @@ def _drive_sw(sim, plan, known, hit):
   world.boot()
   v = world.ends[0]
   sibs = world.ends[1:]
+  early = bool(cfg.get("before_hello"))
+  if early:
+    sim.probes["victim_before_hello"] += 1
   for e in world.ends:
-    e.send(W.enc_hello(0))
+    if not (early and e is v):
+      e.send(W.enc_hello(0))
   sim.drain()
   for e in world.ends:
+    if early and e is v:
+      continue
     got = e.take()
     if not got or got[0]["type"] != W.HELLO:
       raise S.SimAbort("harness", "no hello from a switch")
@@ -443,6 +467,12 @@ def _drive_sw(sim, plan, known, hit):
     if d["type"] == W.ERROR:
       sim.probes["error_sent"] += 1
     if d["type"] in (W.PACKET_IN, W.PORT_STATUS, W.FLOW_REMOVED, W.HELLO):
+      continue
+    if (d["type"] == W.ERROR and len(rest) >= 8
+        and d["xid"] == struct.unpack_from("!L", rest, 4)[0]):
+      # an error about the point where framing was lost (wrong version,
+      # impossible length): its xid is whatever stands there
+      sim.probes["error_about_unframed_rest"] += 1
       continue
     if d["xid"] not in dx and d["xid"] != 0:
       raise Violation("sw/reply-to-undeclared-frame", "victim switch wrote "
